@@ -6,7 +6,7 @@ use crate::{
     },
     stat, system_metric,
 };
-use lazy_static::lazy_static;
+use crate::vsync::lazy_static;
 use std::sync::Arc;
 
 const RULE_CHECK_SLOT_ORDER: u32 = 1000;
